@@ -287,6 +287,7 @@ func rulesC12(c *Ctx) {
 	const rule = "C12.restore"
 	verifierCore(c, "C12.verify")
 	c12KeyFormats(c)
+	rulesC12Round2(c)
 	const rc = "storage/mkvs/checkpoint.restoreChunk"
 	if fn := c.needFn(rule, rc); fn != nil {
 		imp := union("import{NewBatch,doRestoreChunk,Commit}", CallsTo(fn, "", "storage/mkvs/db/api.(NodeDB).NewBatch", ""), CallsTo(fn, "", "storage/mkvs/checkpoint.doRestoreChunk", ""), CallsTo(fn, "", "storage/mkvs/db/api.(Batch).Commit", ""))
